@@ -5,6 +5,7 @@ World: SW (real SoftwareSwitch + OFConnection + IO worker/loop, scripted
 controller peer over a simulated byte stream).
 """
 
+import os
 import struct
 
 from simkit import sim as S
@@ -176,6 +177,16 @@ def gen_plan(seed, tier):
         # the model does not track buffers, so whether this one errors is
         # open; a unique xid keeps the optional error attributable
         st["xid"] = 0x51000000 + len(steps)
+      rv = Rng(mix(seed, "vrw", len(steps)))
+      if st["buffer"] is None and st.get("badact") is None \
+          and st.get("both") is None and rv.chance(0.3):
+        # a VLAN rewrite before the output, with arguments in and beyond the
+        # field's width (the structs carry 16 / 8 bits): a valid request
+        # that needs no answer -- and no internal failure either
+        st["vrw"] = rv.pick([["set_vlan_vid", 5], ["set_vlan_vid", 0x1005],
+                             ["set_vlan_vid", 0xffff], ["set_vlan_pcp", 3],
+                             ["set_vlan_pcp", 8], ["set_vlan_pcp", 0xff],
+                             ["strip_vlan"]])
     elif k == "port_mod":
       st["port"] = r.wpick([(5, r.randint(1, nports)), (2, nports + 1),
                             (1, W.OFPP_LOCAL)])
@@ -213,6 +224,23 @@ def gen_plan(seed, tier):
       steps.append({"op": rp.pick(["del_port", "del_port", "add_port"]),
                     "port": rp.randint(1, nports + 1),
                     "flush": rp.chance(0.5)})
+  rb = Rng(mix(seed, "bulk"))
+  if rb.chance(0.04):
+    # a table whose flow statistics do not fit one message (a few entries
+    # with long action lists here; several hundred ordinary entries in a
+    # deployment): the reply has to come in parts (OFPSF_REPLY_MORE), and the
+    # request is still answered once
+    k, nact = rb.pick([(9, 1000), (17, 500), (30, 300), (12, 700)])
+    for i in range(k):
+      steps.append({"op": "flow_mod", "xid": _xid(rb), "flush": rb.chance(0.3),
+                    "cmd": W.FC_ADD, "m": i % 6, "prio": 300 + i,
+                    "cookie": rb.randrange(1 << 64),
+                    "outp": rb.randint(1, nports), "nact": nact})
+    for _ in range(rb.randint(1, 2)):
+      steps.append({"op": "stats", "xid": _xid(rb), "flush": rb.chance(0.5),
+                    "stype": rb.pick(["flow", "flow", "aggregate"]),
+                    "table": rb.pick([0xff, 0]), "sm": rb.pick([0, 0, 1]),
+                    "sout": W.OFPP_NONE})
   steps.append({"op": "barrier", "xid": _xid(r), "flush": True})
   return {"prop": PROP, "seed": seed, "cfg": cfg, "steps": steps}
 
@@ -248,6 +276,36 @@ class Violation(Exception):
     self.detail = detail
 
 
+def _watch_internal_failures(sim):
+  """Exceptions that the switch's message wrapper (or anything else) logs and
+  whose traceback runs through one of the switch's own request handlers
+  (_rx_<type>, _stats_<type>, an action or output routine): the request was
+  decoded and recognised, and serving it failed internally.  A message for
+  which the switch has no handler at all (a stray reply) raises in rx_message
+  itself and is not counted here."""
+  import logging
+  found = []
+
+  class H(logging.Handler):
+    def emit(self, rec):
+      ei = rec.exc_info
+      if not ei or ei[0] is None:
+        return
+      tb = ei[2]
+      func = line = None
+      while tb is not None:
+        co = tb.tb_frame.f_code
+        if co.co_filename.endswith(os.path.join("datapaths", "switch.py")) \
+            and co.co_name.startswith(("_rx_", "_stats_")) and func is None:
+          func, line = co.co_name, tb.tb_lineno
+        tb = tb.tb_next
+      if func is not None:
+        sim.stats["switch_handler_raised"] += 1
+        found.append((func, ei[0].__name__, str(ei[1])[:120], line))
+  logging.getLogger().addHandler(H())
+  return found
+
+
 def run_plan(plan):
   cfg = plan["cfg"]
   sim = S.Sim(mix(plan["seed"], "run"), calm=plan.get("calm", False))
@@ -259,9 +317,18 @@ def run_plan(plan):
   hit_known = []
   world = SWWorld(sim, cfg)
   res = {"verdict": "ok", "stats": sim.stats, "probes": sim.probes}
+  internal = _watch_internal_failures(sim)
   try:
     world.boot()
     _drive(sim, world, plan, known, hit_known)
+    if internal:
+      func, et, msg, line = internal[0]
+      raise Violation("internal-failure/%s/%s" % (func, et),
+                      "the switch's handler %s raised %s (%s) at switch.py:%d "
+                      "while serving a controller-to-switch message: an "
+                      "internal failure, whatever was or was not answered "
+                      "(%d such exception(s) in this run)"
+                      % (func, et, msg, line, len(internal)))
   except Violation as v:
     res.update(verdict="violation", vclass=v.vclass, detail=v.detail)
   except S.SimAbort as a:
@@ -387,7 +454,9 @@ def _drive(sim, world, plan, known, hit_known):
       _stats(world, model, st, xid, E, nports)
     elif op == "flow_mod":
       m = _match_alphabet(st["m"], nports)
-      acts = [("output", st["outp"], 0xffff)]
+      acts = [("output", st["outp"], 0xffff)] * st.get("nact", 1)
+      if st.get("nact"):
+        sim.probes["flow_mod_with_long_action_list"] += 1
       key = (W.canon_match(m), st["prio"])
       full = st["cmd"] == W.FC_ADD and key not in model["flows"] and \
           len(model["flows"]) >= cfg["max_entries"]
@@ -492,6 +561,9 @@ def _drive(sim, world, plan, known, hit_known):
         used_buffers.add(bid)
         sim.probes["packet_out_data_and_buffer"] += 1
       acts = [("output", st["outp"], 0)] * st.get("nact", 1)
+      if st.get("vrw"):
+        acts = [tuple(st["vrw"])] + acts
+        sim.probes["packet_out_with_vlan_rewrite"] += 1
       if st.get("badact") is not None:
         bad = ("raw", struct.pack("!HHL", st["badact"], 8, 0x2320))
         acts = acts + [bad] if st.get("badpos") else [bad] + acts
@@ -686,7 +758,34 @@ def _stats(world, model, st, xid, E, nports):
       E("error", xid, etype=W.ET_BAD_REQUEST, code=W.BRC_BAD_STAT, req=raw)
 
 
+def _merge_multipart(sim, replies):
+  """A statistics reply may come in parts: consecutive STATS_REPLY messages
+  of one xid and type, all but the last flagged OFPSF_REPLY_MORE (1).  They
+  are one reply; their entry lists are concatenated in order."""
+  out = []
+  for d in replies:
+    p = out[-1] if out else None
+    if (p is not None and d["type"] == W.STATS_REPLY
+        and p["type"] == W.STATS_REPLY and p.get("flags") == 1
+        and "malformed" not in d and "malformed" not in p
+        and d["xid"] == p["xid"] and d.get("stype") == p.get("stype")
+        and d.get("stype") in (W.ST_FLOW, W.ST_PORT, W.ST_TABLE, W.ST_QUEUE)):
+      m = dict(p)
+      for k in ("flows", "ports", "tables", "queues"):
+        if k in p or k in d:
+          m[k] = list(p.get(k, ())) + list(d.get(k, ()))
+      m["flags"] = d.get("flags")
+      m["len"] = p["len"] + d["len"]
+      m["parts"] = p.get("parts", 1) + 1
+      out[-1] = m
+      sim.probes["stats_reply_part_merged"] += 1
+    else:
+      out.append(d)
+  return out
+
+
 def _pair(sim, expect, replies, known, hit_known):
+  replies = _merge_multipart(sim, replies)
   ri = 0
   for e in expect:
     d = replies[ri] if ri < len(replies) else None
